@@ -68,7 +68,7 @@ func requireOnSuccessIdx(c *fw.Ctx, rule, fname string, fn *ssa.Function, idx in
 	}
 	c.Count("success_terms", len(succ))
 	for _, n := range needs {
-		bad := ""
+		bad, opaque := "", ""
 		for _, r := range succ {
 			for _, term := range r.Cond {
 				ok := false
@@ -77,12 +77,33 @@ func requireOnSuccessIdx(c *fw.Ctx, rule, fname string, fn *ssa.Function, idx in
 						ok = true
 					}
 				}
-				if !ok && bad == "" {
+				if ok {
+					continue
+				}
+				// a condition computed by a function literal handed to a library routine
+				// (slices.IndexFunc(xs, func...) and the like) may establish what is needed:
+				// the rule cannot see into it
+				op := ""
+				for _, l := range term {
+					if strings.Contains(l.Atom, "closure:") || strings.Contains(l.Atom, "func:") {
+						op = l.Atom
+					}
+				}
+				if op != "" {
+					opaque = op
+				} else if bad == "" {
 					bad = c.P.Pos(fw.InstrPos(r.Ret))
 				}
 			}
 		}
-		c.Check(bad == "", rule, fname+": success requires "+n.what, c.P.Pos(fn.Pos()), "", fmt.Sprintf("the success return at %s is reachable on a path that does not establish: %s", bad, n.what))
+		switch {
+		case bad != "":
+			c.Fail(rule, fname+": success requires "+n.what, c.P.Pos(fn.Pos()), fmt.Sprintf("the success return at %s is reachable on a path that does not establish: %s", bad, n.what))
+		case opaque != "":
+			c.Undecided(rule, fname+": success requires "+n.what, "a success path depends on "+opaque+", which the rule cannot see into")
+		default:
+			c.Ok(rule, fname+": success requires "+n.what, c.P.Pos(fn.Pos()), "")
+		}
 	}
 }
 
@@ -116,18 +137,19 @@ func checkC15(c *fw.Ctx) {
 	ev := "(gmsl.IRoomVersion).NewEventFromUntrustedJSON(gmsl.GetRoomVersion(*&param:input.RoomVersion)#0,*&param:input.JoinEvent)#0"
 
 	if fn := mustFunc(c, "1 make_join", "HandleMakeJoin"); fn != nil {
-		tmpl := "dyn(*&param:input.BuildEventTemplate)(local:*gmsl.ProtoEvent)"
+		tb := "dyn(*&param:input.BuildEventTemplate)("
 		requireOnSuccess(c, "1 make_join", "HandleMakeJoin", fn, []need{
 			nd("the remote supports the room version", true, "param:input.RoomVersion", "param:input.RemoteVersions"),
 			nd("the user belongs to the requesting server", true, ".Domain(&param:input.UserID) == *&param:input.RequestOrigin)"),
 			nd("the local server is in the room", true, "*&param:input.LocalServerInRoom"),
 			nd("the restricted-join check passed", true, ".CheckRestrictedJoin(", "#1 == nil)"),
-			nd("the template builder succeeded", true, tmpl+"#2 == nil)"),
-			nd("the template event exists", false, tmpl+"#0 == nil)"),
-			nd("the template state exists", false, tmpl+"#1 == nil)"),
-			nd("the template is a member event", true, ".Type("+tmpl+"#0) == \"m.room.member\")"),
-			nd("the state is a valid auth provider", true, "gmsl.NewAuthEvents("+tmpl+"#1)#1 == nil)"),
-			nd("the join passes the auth rules", true, "gmsl.Allowed("+tmpl+"#0,gmsl.NewAuthEvents("+tmpl+"#1)#0,*&param:input.UserIDQuerier) == nil)"),
+			// (the argument handed to the builder is not part of the obligation)
+			nd("the template builder succeeded", true, tb, ")#2 == nil)"),
+			nd("the template event exists", false, tb, ")#0 == nil)"),
+			nd("the template state exists", false, tb, ")#1 == nil)"),
+			nd("the template is a member event", true, ".Type("+tb, ")#0) == \"m.room.member\")"),
+			nd("the state is a valid auth provider", true, "gmsl.NewAuthEvents("+tb, ")#1)#1 == nil)"),
+			nd("the join passes the auth rules", true, "gmsl.Allowed("+tb, ")#0,gmsl.NewAuthEvents("+tb, ")#1)#0,*&param:input.UserIDQuerier) == nil)"),
 		}, 1)
 		// the restricted-join result is put into the template
 		ok := false
@@ -140,15 +162,15 @@ func checkC15(c *fw.Ctx) {
 	}
 	checkRestrictedJoinSelection(c)
 	if fn := mustFunc(c, "2 make_leave", "HandleMakeLeave"); fn != nil {
-		tmpl := "dyn(*&param:input.BuildEventTemplate)(local:*gmsl.ProtoEvent)"
+		tb := "dyn(*&param:input.BuildEventTemplate)("
 		requireOnSuccess(c, "2 make_leave", "HandleMakeLeave", fn, []need{
 			nd("the user belongs to the requesting server", true, ".Domain(&param:input.UserID) == *&param:input.RequestOrigin)"),
 			nd("the local server is in the room", true, "*&param:input.LocalServerInRoom"),
-			nd("the template builder succeeded", true, tmpl+"#2 == nil)"),
-			nd("the template event exists", false, tmpl+"#0 == nil)"),
-			nd("the template state exists", false, tmpl+"#1 == nil)"),
-			nd("the template is a member event", true, ".Type("+tmpl+"#0) == \"m.room.member\")"),
-			nd("the leave passes the auth rules", true, "gmsl.Allowed("+tmpl+"#0,", " == nil)"),
+			nd("the template builder succeeded", true, tb, ")#2 == nil)"),
+			nd("the template event exists", false, tb, ")#0 == nil)"),
+			nd("the template state exists", false, tb, ")#1 == nil)"),
+			nd("the template is a member event", true, ".Type("+tb, ")#0) == \"m.room.member\")"),
+			nd("the leave passes the auth rules", true, "gmsl.Allowed("+tb, ")#0,", " == nil)"),
 		}, 1)
 	}
 	if fn := mustFunc(c, "3 send_join", "HandleSendJoin"); fn != nil {
